@@ -33,6 +33,11 @@ def replay(case):
                 s = tuple(c['s'])
                 want = ev_expr(c['gen'], x)
                 got = float(tg.generator_on_product(basis, s, x, b, sig))
+                # the same with integer-typed arguments (the data of the specification are integers)
+                goti = float(tg.generator_on_product(basis, s, x.astype(np.int64), b.astype(np.int64), sig.astype(np.int64)))
+                if abs(goti - want) > 1e-9 * max(1.0, abs(want)):
+                    out.append(('generator_on_product:value:int-dtype', 'L(prod f)(x) = %r for integer-typed x, b, sigma; symbolic value %r (s=%r)' % (goti, want, s)))
+                    break
                 if abs(got - want) > 1e-9 * max(1.0, abs(want)):
                     out.append(('generator_on_product:value', 'L(prod f)(x) = %r, symbolic value %r (s=%r, x=%r, sigma shape %r)' % (
                         got, want, s, list(x), sig.shape)))
@@ -66,7 +71,8 @@ def replay(case):
         # general configurations
         x = np.array(exp['x'], dtype=float)
         d, m = x.shape
-        basis = lambda: [[make_fn(f) for f in mode] for mode in cfg['basis']]
+        _basis = [[make_fn(f) for f in mode] for mode in cfg['basis']]
+        basis = lambda: _basis        # one list of function objects for all calls (and the same data arrays: see C19_b)
         sig = np.stack([np.array(s_, dtype=float) for s_ in exp['sig']], axis=2)        # d x d2 x m
         b = np.array(exp['b'], dtype=float).T                                           # d x m
         w = np.array(exp['w'], dtype=float) if cfg['rew'] else None
@@ -120,6 +126,12 @@ def replay(case):
                 break
             if np.any(np.diff(np.real(ev)) > 1e-9 * scale):
                 out.append(('amuset:order', 'eigenvalues are not returned in descending order'))
+                break
+            # lattice data stored with an integer dtype
+            evi, _, _ = quiet(tg.amuset_hosvd, x.astype(np.int64), basis(), sig, return_option=opt, **kw)
+            evi = np.asarray(evi)
+            if evi.shape != ev.shape or np.max(np.abs(np.real(evi) - np.real(ev))) > 1e-6 * scale:
+                out.append(('amuset:int-dtype', 'integer-typed data matrix changed the eigenvalues: %r vs %r' % (np.round(np.real(evi), 6), np.round(np.real(ev), 6))))
                 break
             # a rank cap that does not bind (number of snapshots) must not change anything
             evc, _, _ = quiet(tg.amuset_hosvd, x, basis(), sig, return_option=opt, max_rank=m, **kw)
